@@ -107,6 +107,24 @@ CHECKS = {
         design="4/C05", technique="Lean 4 proof (decide +kernel over templates x sign classes; real-analysis identities) + character-level differential check",
         note="Non-finite coefficients (inf/nan) are outside; magnitudes are opaque (Python repr never starts/ends with a sign); "
              "IEEE evaluation is compared with 1e-9 relative tolerance; shielding functions are opaque symbols."),
+    "C07": dict(
+        text="Theorems native_roundtrip and kida_roundtrip (for every well-formed abstract line - any names within the column "
+             "budget, multiplicities, numbers - decode (encode l) = l, assembled from generic lemmas: split inverts join, strip of "
+             "padded fields, split() on fixed-width columns), markers_never_species, readFile_append / _blank / _data (one reaction "
+             "per data line, blank lines add none). UMIST, UCLCHEM and Leeds decoders are executable models checked on examples "
+             "and by correspondence; KROME is checked against the generator's ground truth only. Tie: generated files of all six "
+             "formats (columns filled to the limit, every code) read by the real Network and by the model.",
+        design="4/C07", technique="Lean 4 proof (list/string lemmas, round trips) + differential check against own encoders",
+        note="Round-trip theorems are proved for the native and KIDA formats; UMIST/UCLCHEM/Leeds/KROME are model-vs-code and "
+             "oracle only (partial). Python float()/int() read the numeric text."),
+    "C18": dict(
+        text="Theorems native_roundtrip, second_cycle (write-read-write is idempotent), type_code_shared (computed table of the "
+             "(format, code) pairs whose exported type number re-renders to the same expression) and F15_witness. Tie: networks "
+             "of every input format written, re-read, re-written; text of the model encoder equals Network.write; rates of the "
+             "re-read network evaluated against the direct ones.",
+        design="4/C18", technique="Lean 4 proof (string round trip; decide +kernel over rate templates) + write/read differential check",
+        note="alpha/beta/gamma are compared at the printed precision (10.3e); species order inside a reaction is preserved as a "
+             "multiset (the writer sorts names); F15-* are known findings (export keeps only the basic type number)."),
 }
 
 NOT_YET = {}
